@@ -160,6 +160,7 @@ type wNet struct {
 	requests  int
 	log       []string
 	bad       int
+	fired     func(kind string) // fault accounting (a faulty answer was actually served)
 }
 
 const (
@@ -188,6 +189,9 @@ func (n *wNet) FetchBlocksFromPeer(ctx context.Context, peer ids.NodeID, req *va
 		b = n.behaviour[k]
 	}
 	n.log = append(n.log, fmt.Sprintf("req%d(h=%d,min=%d)->%s", k, req.BlockHeight, req.MinTimestamp, bNames[b]))
+	if b != bHonest && n.fired != nil {
+		n.fired("peer_" + bNames[b])
+	}
 	if b != bHonest && b != bError && b != bTimeout && b != bEmpty && b != bTruncated {
 		n.bad++
 	}
@@ -364,7 +368,7 @@ func c22(r *simk.Run) *simk.Violation {
 			fail("harness", "%v", err)
 			return
 		}
-		net := &wNet{behaviour: behaviour, honest: validitywindow.NewBlockFetcherHandler[*wBlock](wChainRetriever{trueChain}), trueChain: trueChain, forged: forged}
+		net := &wNet{behaviour: behaviour, honest: validitywindow.NewBlockFetcherHandler[*wBlock](wChainRetriever{trueChain}), trueChain: trueChain, forged: forged, fired: s.FaultFired}
 		sampler := &wSampler{}
 		for i := 0; i < nPeers; i++ {
 			sampler.peers = append(sampler.peers, ids.BuildTestNodeID([]byte{byte(i + 1)}))
